@@ -189,3 +189,67 @@ def run(ctx):
         for c in g.calls("re:Index<.*::index$"):
             fl |= fields_of(g, c.args[1], taint=False)
         r3.check({"shard", "address_index"} <= fl, "index-by-candidate", "databases[..][..] is indexed by the candidate's shard and address_index", "the connection pool is not indexed by the candidate's own coordinates: %s" % sorted(fl))
+
+    # ---------------- R5 the bound-parameter path reads the key the client sent
+    r5 = ctx.rule("C06-R5", "a key that arrives as a bound parameter is the parameter the statement equates with the sharding key, read with its sign and at its own position in the Bind message: "
+                  "signed decoding, the parameter loop consumes every parameter's bytes, and only placeholders compared with the sharding key column are recorded", floor=4)
+    ib = ctx.body("pgcat::query_router::QueryRouter::infer_shard_from_bind", r5)
+    if ib:
+        sh = ib.calls("pgcat::sharding::Sharder::shard")
+        if not sh:
+            r5.missing("Sharder::shard in infer_shard_from_bind")
+        else:
+            prod = {o.call.name.split("::")[-1] for o in origins(ib, sh[0].args[1]) if o.kind == "call"}
+            unsigned = sorted(p_ for p_ in prod if re.match(r"get_u(8|16|32|64|128|int)(_le|_ne)?$|get_uint", p_))
+            r5.check(bool(prod) and not unsigned and prod <= {"get_i16", "get_i32", "get_i64", "parse", "get_int", "get_i8"}, "bind-value-signed", "the key is decoded with signed reads (%s)" % sorted(prod),
+                     "a binary key parameter is decoded with %s: int2/int4 values lose their sign (k becomes k+2^16 / k+2^32) and a negative key is routed to another key's shard, unlike the same key sent as text or via SET SHARDING KEY" % (unsigned or sorted(prod)), sh[0].where())
+        lens = [c for c in ib.calls("re:Buf::get_i32$") if any(c.block in natural_loop(ib, hd) for hd in loop_headers(ib)) and any(k.block in ib.reach([c.block]) for k in ib.calls("re:^core::slice::<impl \\[T\\]>::contains$"))]
+        cont = ib.calls("re:^core::slice::<impl \\[T\\]>::contains$")
+        if not lens or not cont:
+            r5.missing("parameter loop (length read + placeholder test) in infer_shard_from_bind")
+        else:
+            dom = [c for c in lens if ib.dominates(c.block, cont[0].block)]
+            lr = dom[-1] if dom else lens[0]
+            heads = sorted((len(natural_loop(ib, hd)), hd) for hd in loop_headers(ib) if lr.block in natural_loop(ib, hd) and cont[0].block in natural_loop(ib, hd))
+            phead = heads[0][1]
+            consumers = [c.block for c in ib.calls("re:Buf::(get_u8|get_i8|get_i16|get_i32|get_i64|get_int|get_uint|advance|copy_to_slice|copy_to_bytes)$") if c.block in natural_loop(ib, phead) and c.block != lr.block and c.block in ib.reach([lr.target])]
+            # a NULL parameter (length -1) has no bytes: the `len < 0` edge is a legitimate way round
+            nullE = set()
+            for sw in switches(ib):
+                if sw.is_bool():
+                    for o in sw.origins():
+                        if o.kind == "bin" and o.what in ("Lt", "Le", "Gt", "Ge"):
+                            len_left = any(oo.kind == "call" and oo.call.block == lr.block for oo in origins(ib, o.extra["a"]))
+                            len_right = any(oo.kind == "call" and oo.call.block == lr.block for oo in origins(ib, o.extra["b"]))
+                            other = o.extra["b"] if len_left else o.extra["a"]
+                            if (len_left or len_right) and const_int(other) in (0, -1):
+                                te, fe = sw.bool_edges()
+                                if o.neg:
+                                    te, fe = fe, te
+                                # `len < 0` / `len <= -1` true, `len >= 0` / `len > -1` false, and the mirrored forms
+                                negative_is_true = (o.what in ("Lt", "Le")) == len_left
+                                nullE.add(te if negative_is_true else fe)
+            w = ib.uncrossed_path([lr.target], [phead], blocks=consumers, edges=nullE)
+            r5.check(w is None, "bind-parameters-walked-in-step", "every iteration of the parameter loop consumes the parameter it has read the length of",
+                     "the parameter loop of infer_shard_from_bind can go to the next parameter without consuming the bytes of the current one (parameters that are not key placeholders, or a wrong binary width): "
+                     "for `WHERE name LIKE $1 AND id = $2` the key $2 is then read from the middle of $1's bytes - wrong shard, no shard, or a panic on a perfectly valid Bind", lr.where(), w and ib.describe_path(w))
+    sp = ctx.body("pgcat::query_router::QueryRouter::selection_parser", r5)
+    if sp:
+        ssw = switches(sp)
+        fl = sp.locals_named("found")
+        T = set()
+        for sw in ssw:
+            if sw.is_bool() and set(cond_locals(sp, sw.block)) & set(fl):
+                te, fe = sw.bool_edges()
+                T.add(te)
+        npush = 0
+        for c in sp.calls("re:^alloc::vec::Vec::push$"):
+            var = {str(o.extra.get("variant")) for o in origins(sp, c.args[1]) if o.kind == "agg" and "ShardingKey" in str(o.what)}
+            if not var:
+                continue
+            npush += 1
+            guarded = bool(T) and sp.uncrossed_path([0], [c.block], edges=T) is None
+            r5.check(guarded, "recorded-only-for-the-key-column:" + "/".join(sorted(var)), "ShardingKey::%s is recorded only where the left-hand side was the sharding key column (`found`)" % "/".join(sorted(var)),
+                     "selection_parser records a ShardingKey::%s without looking at `found` (its sibling arm does): any `col = $n` makes $n a sharding-key placeholder - `WHERE age = $1` is routed by the value of age, and "
+                     "`WHERE name = $1 AND id = $2` yields two candidate shards and is not routed at all" % "/".join(sorted(var)), c.where())
+        r5.check(npush >= 2 and bool(T), "selection-arms", "%d arms of selection_parser record a sharding key, `found` is tested" % npush, "expected the Number and Placeholder arms of selection_parser (found %d) and a test of `found`" % npush)
